@@ -54,7 +54,9 @@ def make_case(tier, seed, index):
             i = names.index(ANCHORS[index])
         case = corpus.make_case(rng, max_steps=8)
         fw, db, pbs = corpus.PAIRS[i] if i < len(corpus.PAIRS) else (corpus.AUTO[i - len(corpus.PAIRS)], None, [])
-        case.update({"kind": "corpus-roundtrip", "framework": fw, "databook": db, "progbook": pbs[int(rng.integers(0, len(pbs)))] if pbs else None, "mode": "mild", "budget_factor": 1.0, "prog_start_step": 1.0})
+        menu = ["add_pop", "remove_pop", "add_transfer", "remove_transfer", "copy", "add_pop", "remove_pop"]
+        ops = [str(menu[int(rng.integers(0, len(menu)))]) for _ in range(int(rng.integers(1, 5)))]
+        case.update({"kind": "corpus-roundtrip", "framework": fw, "databook": db, "progbook": pbs[int(rng.integers(0, len(pbs)))] if pbs else None, "mode": "mild", "budget_factor": 1.0, "prog_start_step": 1.0, "ops": ops, "seed": [seed, 16, index, 9]})
         return case
     index += len(LIB)
     rng = gen.rng_for(seed, 16, index)
@@ -258,7 +260,10 @@ def run_case(case):
         R.count("corpus_population_types[%d]" % len(P.framework.pop_types))
         for k in ("framework", "databook", "calibration", "binary") + (("progbook",) if pset is not None else ()):
             round_trip(R, k, P, pset, instr, np.random.default_rng(1))
-        return {"records": R.records(), "stats": R.stats, "nontrivial": True, "sample": dict(corpus.describe(case), kind=kind)}
+        # editing operations on the shipped databook (populations of every type, transfers), then the round trip
+        if case.get("ops"):
+            data_ops(R, case, P, None, np.random.default_rng(case["seed"]))
+        return {"records": R.records(), "stats": R.stats, "nontrivial": True, "sample": dict(corpus.describe(case), kind=kind, ops=case.get("ops"))}
     spec, ps = case["spec"], case["progspec"]
     rng = np.random.default_rng(case["seed"])
     P = gen.build_project(spec)
@@ -630,26 +635,33 @@ def data_ops(R, case, P, spec, rng):
                 nm = "newpop%d" % (len(applied) + len(data.pops))
                 while nm in data.pops:
                     nm += "x"
-                data.add_pop(nm, "New " + nm)
+                ptypes = list(fw.pop_types.keys())
+                ptype = ptypes[int(rng.integers(0, len(ptypes)))]
+                data.add_pop(nm, "New " + nm, pop_type=ptype) if len(ptypes) > 1 else data.add_pop(nm, "New " + nm)
+                R.count("add_pop[type %d of %d]" % (ptypes.index(ptype) + 1, len(ptypes)))
                 for code, tdve in data.tdve.items():
-                    src = list(tdve.ts.keys())[0]
-                    if nm in tdve.ts:
-                        tdve.ts[nm] = tdve.ts[src].copy()
+                    src = [k_ for k_ in tdve.ts.keys() if k_ != nm]
+                    if nm in tdve.ts and src:
+                        tdve.ts[nm] = tdve.ts[src[0]].copy()
                 for tdc in data.interpops:
-                    for a in data.pops:
-                        for b in data.pops:
+                    for a in tdc.from_pops:
+                        for b in tdc.to_pops:
                             if (a, b) not in tdc.ts:
                                 ts = at.TimeSeries(units="N.A.")
                                 ts.insert(None, float(rng.uniform(0, 2)))
                                 tdc.ts[(a, b)] = ts
             elif op == "remove_pop":
-                if len(data.pops) < 2:
+                # (the last population of a population type is not removed: the library has no notion of a type without populations)
+                removable = [k_ for k_, v_ in data.pops.items() if sum(1 for w_ in data.pops.values() if w_["type"] == v_["type"]) >= 2]
+                if not removable:
                     continue
-                data.remove_pop(list(data.pops.keys())[int(rng.integers(0, len(data.pops)))])
+                data.remove_pop(removable[int(rng.integers(0, len(removable)))])
             elif op == "add_transfer":
                 nm = "newtr%d" % len(data.transfers)
-                tdc = data.add_transfer(nm, "New " + nm)
-                pops = list(data.pops.keys())
+                ptypes = list(fw.pop_types.keys())
+                ptype = ptypes[int(rng.integers(0, len(ptypes)))]
+                tdc = data.add_transfer(nm, "New " + nm, pop_type=ptype) if len(ptypes) > 1 else data.add_transfer(nm, "New " + nm)
+                pops = [k_ for k_, v_ in data.pops.items() if len(ptypes) == 1 or v_["type"] == ptype]
                 if len(pops) >= 2:
                     ts = at.TimeSeries(units=gen.TRANSFER_UNITS["rate"])
                     ts.insert(None, float(rng.uniform(0, 0.5)))
